@@ -50,6 +50,21 @@ CHECKS = {
    text="For each of the 17 gRPC codes the outcome class of the apply step (retry / wait / record refusal with the right class and cursor order) is decided; every error classifier is shown to be applied in the domain its argument's producers are in; the device-code to caller-status composition is shown to be the identity on refusals.",
    note="Trusted: as C02 plus the source of onos-lib-go errors in the module cache. The classifier-domain defect found (status.Code on a TypedError) was repaired (fix commit e6b405d). Not covered: device-side state, retry timing.",
    ref="DESIGN.md §3 C11"),
+ "C08": dict(
+   technique="finite-domain evaluation of the handlers' wait loops over Synchronicity x State x Failure type; must-precede and argument dataflow for Create/Watch/response",
+   text="Both wait loops are evaluated for every (synchronicity, state) pair and every failure type: success, error and keep-waiting cells must match the required table, the failure class table must be total and exact, Create must succeed before a Watch that carries WithReplay and the created id, and the response must be built from the created record. Delivery and timing are not decided.",
+   note="Trusted: as C02. The (ASYNC, APPLIED) cell was wrong in both handlers and was repaired (fix commit 29792fa). Not covered: that the store delivers events (C15 covers registration order).",
+   ref="DESIGN.md §3 C08"),
+ "C13": dict(
+   technique="effect reachability over resolved calls, outcome tables over the handler's enumerated paths (failed check => no Create, error returned), discarded-error discipline over RPC-reachable functions, addressing dataflow",
+   text="The only store mutator reachable from Set is transaction.Create; every failing check returns an error without reaching it; the no-operation and size-limit tests dominate it; no RPC-reachable call drops its error while using its value; target precedence, prefix+path order and the per-operation target are as documented.",
+   note="Trusted: as C02; calls through interfaces are leaves of the reachability. The discarded NewChangeValue error found here was repaired (fix commit a5a0264). Not covered: FindPathFromModel/CheckKeyValue over all models.",
+   ref="DESIGN.md §3 C13"),
+ "C14": dict(
+   technique="must-precede on the handler's paths (evaluation before Create), control-dependence predicate rule on the granting paths of the evaluation (equality required, substring-like predicates banned), listing predicate",
+   text="Create in Set is shown to be reachable only after the group evaluation returned nil on the incoming metadata; every granting path of the evaluation is shown to depend on an equality of a non-empty caller group with a configured group (or on the absence of all identity metadata); the target listing under authorization is shown to depend on the two documented equalities.",
+   note="Trusted: as C02. The substring/empty-group defect found here was repaired (fix commit def6732). Not covered: token validation, OPA.",
+   ref="DESIGN.md §3 C14"),
 }
 
 def main():
